@@ -160,9 +160,16 @@ impl Array {
                 }
             } else {
                 let sum_len = a.dimensions[a.dimensions.len() - a_index];
+                // a vector on the right is a column for the dot product of two vectors, and a single row otherwise
+                let b_sum_len = if b.dimensions.len() >= b_index {
+                    b.dimensions[b.dimensions.len() - b_index]
+                } else if a.dimensions.len() < 2 {
+                    b.dimensions[0]
+                } else {
+                    1
+                };
                 assert!(
-                    b.dimensions.len() < b_index
-                        || sum_len == b.dimensions[b.dimensions.len() - b_index],
+                    sum_len == b_sum_len,
                     "error: the dimensions {:?}, and {:?} are not compatible",
                     a.dimensions,
                     b.dimensions
